@@ -50,6 +50,12 @@ type Stats struct {
 	ChoicePoints int
 	MaxDepth     int
 	Capped       bool
+	// Diverged counts prefixes that could not be replayed even after
+	// Options.RetryDivergence attempts and were skipped (with their subtrees).
+	Diverged int
+	// Retried counts executions that were run again because the first attempt
+	// did not follow its prefix.
+	Retried int
 }
 
 type Options struct {
@@ -63,6 +69,14 @@ type Options struct {
 	Stop func() bool
 	// Shard i of n over subtrees rooted at choice-prefix length ShardDepth.
 	ShardI, ShardN, ShardDepth int
+	// RetryDivergence: when an execution does not follow the prefix it replays,
+	// run the same prefix again, up to this many more times. For harnesses that
+	// follow goroutines they do not fully own (adopted goroutines of the code
+	// under test, observed through runtime.Stack): an attempt in which such a
+	// goroutine was seen too late is not an execution of that prefix. A prefix
+	// that still diverges is skipped and counted in Stats.Diverged (the caller
+	// reports the search as not exhaustive); 0 = divergence panics as before.
+	RetryDivergence int
 }
 
 func deviations(tr []int, free []bool) int {
@@ -124,10 +138,35 @@ func Explore(opts Options, body func(c *Ctx)) Stats {
 		if opts.ShardN > 1 && len(prefix) >= opts.ShardDepth && owner(prefix, opts.ShardDepth, opts.ShardN) != opts.ShardI {
 			return
 		}
-		c := &Ctx{prefix: prefix}
-		body(c)
-		if len(c.Trace) < len(prefix) {
-			panic(Divergence(fmt.Sprintf("mc: replay divergence: execution ended after %d of %d prefix choices", len(c.Trace), len(prefix))))
+		var c *Ctx
+		for attempt := 0; ; attempt++ {
+			c = &Ctx{prefix: prefix}
+			var div *Divergence
+			func() {
+				if opts.RetryDivergence > 0 {
+					defer func() {
+						if r := recover(); r != nil {
+							if d, ok := r.(Divergence); ok {
+								div = &d
+								return
+							}
+							panic(r)
+						}
+					}()
+				}
+				body(c)
+				if len(c.Trace) < len(prefix) {
+					panic(Divergence(fmt.Sprintf("mc: replay divergence: execution ended after %d of %d prefix choices", len(c.Trace), len(prefix))))
+				}
+			}()
+			if div == nil {
+				break
+			}
+			if attempt >= opts.RetryDivergence {
+				st.Diverged++
+				return
+			}
+			st.Retried++
 		}
 		mine := Owned(opts, c)
 		if mine {
